@@ -246,9 +246,16 @@ func genC01(seed uint64) (*Scenario, *c01Meta) {
 			"TRIGGER ERROR 7 'boom';",
 			"INSERT INTO t1 (id, n, s) VALUES (1, 2, 3), (4, 5);",
 			"UPDATE t0 SET nosuchcolumn = 1;",
+			// failures raised inside blocks, functions, cursors loops and executed strings
+			"IF TRUE THEN WHILE TRUE DO TRIGGER ERROR 8 'nested'; END WHILE; END IF;",
+			"DECLARE ferr FUNCTION (@a) AS BEGIN UPDATE t0 SET n = n + 1000; TRIGGER ERROR 9 'in function'; RETURN @a; END; PRINT ferr(1);",
+			"DECLARE cz CURSOR FOR SELECT id FROM t1; OPEN cz; VAR @z; WHILE @z IN cz DO UPDATE t1 SET n = 1 / (id - id); END WHILE;",
+			"EXECUTE 'UPDATE t0 SET n = n + 5; SELECT * FROM no_such_table;';",
+			"CASE WHEN TRUE THEN INSERT INTO t1 (id, n, s) VALUES (902, 1, 'x'); SELECT 1 / 0 FROM t1; END CASE;",
 		))
 	case "exit":
-		g.lines = append(g.lines, r.PickS("EXIT;", "EXIT 3;"))
+		g.lines = append(g.lines, r.PickS("EXIT;", "EXIT 3;", "IF TRUE THEN WHILE TRUE DO EXIT 4; END WHILE; END IF;",
+			"DECLARE fex FUNCTION () AS BEGIN UPDATE t0 SET n = n + 2000; EXIT 5; RETURN 1; END; PRINT fex();", "EXECUTE 'UPDATE t1 SET n = 77; EXIT;';", "EXIT 0;"))
 	default:
 		g.dump("final", 0)
 		// the implicit commit must not depend on what the last statement is
